@@ -1,5 +1,7 @@
 package res
 
+import "github.com/jirenius/go-res/verifhook"
+
 type work struct {
 	s      *Service
 	wid    string // Worker ID for the work queue
@@ -13,10 +15,13 @@ func (s *Service) startWorker() {
 	s.mu.Lock()
 	defer s.mu.Unlock()
 	defer s.wg.Done()
+	defer verifhook.Note("worker-exit", "", 0)
 	// workqueue being nil signals we the service is closing
 	for s.workqueue != nil {
 		for len(s.workqueue) == 0 {
+			verifhook.Note("worker-wait", "", 0)
 			s.workcond.Wait()
+			verifhook.Note("worker-wake", "", 0)
 			if s.workqueue == nil {
 				return
 			}
@@ -27,6 +32,7 @@ func (s *Service) startWorker() {
 		} else {
 			s.workqueue = s.workqueue[1:]
 		}
+		verifhook.Note("take", w.wid, 0)
 		w.processQueue()
 	}
 }
@@ -38,11 +44,15 @@ func (w *work) processQueue() {
 	for len(w.queue) > idx {
 		f = w.queue[idx]
 		w.s.mu.Unlock()
+		verifhook.Note("cb-start", w.wid, idx)
 		idx++
 		f()
+		verifhook.Note("cb-end", w.wid, idx-1)
+		verifhook.Gate("worker-before-relock")
 		w.s.mu.Lock()
 	}
 	// Work complete. Delete if it has a work ID.
+	verifhook.Note("retire", w.wid, idx)
 	if w.wid != "" {
 		delete(w.s.rwork, w.wid)
 	}
